@@ -41,12 +41,20 @@ structure Watcher where
   what : Nat := 0
   /-- registered with `watch_values`: the callback is called with keyword arguments `name=new` -/
   kw : Bool := false
+  /-- identity of the `Watcher` *object*: `id` names the registration statement (what `unwatch` is
+  given, what the logs show), but a `watch` statement inside a callback body makes a new object every
+  time it runs, and the queue of a batch holds each object once (`watcher is w`).  Assigned from
+  `World.nreg` when the watcher is registered. -/
+  uid : Nat := 0
   deriving Repr, DecidableEq
+
+/-- how a registration shows in the logs: the id of the registering statement and the object identity -/
+def Watcher.key (x : Watcher) : Nat × Nat := (x.id, x.uid)
 
 /-- shorthand for examples: a value watcher whose callback identity is its id -/
 def mkW (id : Nat) (params : List Nat) (onlychanged queued : Bool) (precedence : Int) (body : Nat) : Watcher :=
   { id := id, params := params, onlychanged := onlychanged, queued := queued, precedence := precedence,
-    body := body, cb := id }
+    body := body, cb := id, uid := id }
 
 /-- a raw event (`type=None`) -/
 structure Ev where
@@ -117,6 +125,8 @@ structure World where
   Parameter's `watchers` dict, which survive `unwatch` (the list just becomes empty) -/
   slotKeys : List (Nat × Nat) := []
   ncalls : Nat := 0            -- number of callback invocations so far (ghost)
+  /-- number of registrations so far: the identity given to the next Watcher object -/
+  nreg : Nat := 0
   deriving Repr
 
 /-- what a run leaves in the log; a tree, because callbacks nest -/
@@ -124,9 +134,10 @@ inductive Item
   /-- a callback invocation: watcher, events, via the flush?, values at entry, what it did, outcome -/
   | call (wid : Nat) (evs : List TEv) (viaFlush : Bool) (snap : List Int) (children : List Item) (res : Res)
   /-- a statement executed by the program: rendered name, payload, flags at entry, watchers registered
-      for the assigned parameter (ids, registration order), what happened inside, outcome -/
+      for the assigned parameter (statement id and object identity, registration order), what happened
+      inside, outcome -/
   | stmt (kind : String) (p : Nat) (old new : Int) (batchAtEntry trigAtEntry : Bool)
-         (regs : List Nat) (children : List Item) (res : Res)
+         (regs : List (Nat × Nat)) (children : List Item) (res : Res)
   deriving Repr
 
 def Item.isCallNode : Item → Bool
@@ -180,7 +191,8 @@ def lastFor (dict : List Ev) (name : Nat) (what : Nat := 0) : Option Ev :=
 def evsFor (trig : Bool) (wt : Watcher) (dict : List Ev) : List TEv :=
   wt.params.filterMap (fun n => (lastFor dict n wt.what).map (typed trig wt))
 
-def hasId (l : List Watcher) (id : Nat) : Bool := l.any (fun x => x.id = id)
+/-- `any(watcher is w for w in l)` -/
+def hasId (l : List Watcher) (uid : Nat) : Bool := l.any (fun x => x.uid = uid)
 
 /-- does the changes-only filter let the event through (`_call_watcher`) -/
 def passes (trig : Bool) (wt : Watcher) (e : Ev) : Bool :=
@@ -198,7 +210,7 @@ def dedupKeys : List (Nat × Int) → List (Nat × Int)
 /-- the keys of an `update`/`trigger` as the program wrote them, with the values and the
 registered watchers seen at entry (what a caller can observe before making the call) -/
 def keyNodes (w : World) (kvs : List (Nat × Int)) (tr : Bool) : List Item :=
-  kvs.map fun kv => .stmt "key" kv.1 (getVal w kv.1) kv.2 true tr ((regsFor w kv.1).map (·.id)) [] .ok
+  kvs.map fun kv => .stmt "key" kv.1 (getVal w kv.1) kv.2 true tr ((regsFor w kv.1).map Watcher.key) [] .ok
 
 /-- `dict({name: current value}, **{event: True})` -/
 def triggerKvs (c : Cfg) (w : World) (ps : List Nat) : List (Nat × Int) :=
@@ -239,10 +251,10 @@ def run (c : Cfg) : Nat → Call → World → Res × World × List Item
       | r => r
     | .stmt (.set p v) =>
       let (r, w1, o) := run c f (.setAttr p v) w
-      (r, w1, [.stmt "set" p (getVal w p) v w.batch w.trigger ((regsFor w p).map (·.id)) o r])
+      (r, w1, [.stmt "set" p (getVal w p) v w.batch w.trigger ((regsFor w p).map Watcher.key) o r])
     | .stmt (.setSlot p k v) =>
       let (r, w1, o) := run c f (.setSlot p k v) w
-      (r, w1, [.stmt s!"setSlot{k}" p (getSlot w p k) v w.batch w.trigger ((regsForSlot w p k).map (·.id)) o r])
+      (r, w1, [.stmt s!"setSlot{k}" p (getSlot w p k) v w.batch w.trigger ((regsForSlot w p k).map Watcher.key) o r])
     | .stmt (.update kvs) =>
       let (r, w1, o) := run c f (.update (dedupKeys kvs)) w
       (r, w1, [.stmt "update" 0 0 0 w.batch w.trigger [] (keyNodes w (dedupKeys kvs) w.trigger ++ o) r])
@@ -286,7 +298,7 @@ def run (c : Cfg) : Nat → Call → World → Res × World × List Item
         [.stmt "discard" 0 0 0 w.batch w.trigger [] o1 r1])
     | .stmt (.watch wt) =>
       if wt.params.all (fun p => decide (p < c.nparams)) then
-        (.ok, { w with regs := w.regs ++ [wt],
+        (.ok, { w with regs := w.regs ++ [{ wt with uid := w.nreg }], nreg := w.nreg + 1,
                        slotKeys := if wt.what = 0 then w.slotKeys else w.slotKeys ++ wt.params.map (fun p => (p, wt.what)) },
           [.stmt "watch" wt.id 0 0 w.batch w.trigger [] [] .ok])
       else (.raised .value, w, [.stmt "watch" wt.id 0 0 w.batch w.trigger [] [] (.raised .value)])
@@ -361,7 +373,7 @@ def run (c : Cfg) : Nat → Call → World → Res × World × List Item
       if !passes w.trigger wt ev then (.ok, w, [])
       else if w.batch then
         (.ok, { w with events := w.events ++ [ev],
-                       queued := if hasId w.queued wt.id then w.queued else w.queued ++ [wt] }, [])
+                       queued := if hasId w.queued wt.uid then w.queued else w.queued ++ [wt] }, [])
       else run c f (.exec wt [typed w.trigger wt ev] false) w
     | .exec wt evs viaFlush =>
       -- `_batch_call_watchers(enable=watcher.queued, run=False)` around the callback
@@ -431,6 +443,6 @@ def run (c : Cfg) : Nat → Call → World → Res × World × List Item
       let kvs := triggerKvs c w ps
       let (r1, w1, o1) := run c f (.update kvs) { w with events := [], queued := [], trigger := true }
       (r1, { w1 with trigger := w.trigger, events := parkedE ++ w1.events,
-                     queued := parkedQ ++ w1.queued.filter (fun x => !hasId parkedQ x.id) }, o1)
+                     queued := parkedQ ++ w1.queued.filter (fun x => !hasId parkedQ x.uid) }, o1)
 
 end ParamVerif.Dispatch
